@@ -14,6 +14,7 @@ import (
 	"fmt"
 	"go/ast"
 	"go/constant"
+	"go/printer"
 	"go/token"
 	"go/types"
 	"os"
@@ -962,6 +963,13 @@ func main() {
 	}
 }
 
+func nodeText(p *packages.Package, n ast.Node) string {
+	var b strings.Builder
+	_ = printer.Fprint(&b, p.Fset, n)
+
+	return b.String()
+}
+
 // facts: designated ordering facts read off the AST (true/false), each the hypothesis of a small
 // interleaving theorem in Props/C18.lean
 func emitFacts(path string, pkgs []*packages.Package) {
@@ -974,6 +982,38 @@ func emitFacts(path string, pkgs []*packages.Package) {
 				fd, ok := d.(*ast.FuncDecl)
 				if !ok || fd.Body == nil {
 					continue
+				}
+				if p.Name == "allocation" && fd.Name.Name == "addTCPConnection" {
+					// the bind timer's callback (the func literal handed to time.AfterFunc) takes the manager's lock
+					// BEFORE it first looks at isBound: its decision and its removal are one critical section
+					ast.Inspect(fd.Body, func(n ast.Node) bool {
+						call, ok := n.(*ast.CallExpr)
+						if !ok || types.ExprString(call.Fun) != "time.AfterFunc" || len(call.Args) != 2 {
+							return true
+						}
+						lit, ok := call.Args[1].(*ast.FuncLit)
+						if !ok {
+							return true
+						}
+						lockAt, boundAt, unlockAt := -1, -1, -1
+						for i, st := range lit.Body.List {
+							txt := nodeText(p, st)
+							if es, ok := st.(*ast.ExprStmt); ok && types.ExprString(es.X) == "m.lock.Lock()" && lockAt < 0 {
+								lockAt = i
+							}
+							if es, ok := st.(*ast.ExprStmt); ok && types.ExprString(es.X) == "m.lock.Unlock()" && unlockAt < 0 {
+								unlockAt = i
+							}
+							if strings.Contains(txt, "isBound") && boundAt < 0 {
+								boundAt = i
+							}
+						}
+						// the removal must not leave the critical section either: no explicit Unlock before the end
+						// (a deferred one is fine), and no call that takes the lock again
+						found["bindTimer_decides_under_lock"] = lockAt >= 0 && boundAt > lockAt && unlockAt < 0 &&
+							!strings.Contains(nodeText(p, lit.Body), "RemoveTCPConnection(m,")
+						return false
+					})
 				}
 				if p.Name == "allocation" && fd.Name.Name == "AddPermission" {
 					// the permission's timer is armed (perms.start) while permissionsLock is write-held, i.e. between
@@ -1004,7 +1044,7 @@ func emitFacts(path string, pkgs []*packages.Package) {
 			}
 		}
 	}
-	for _, k := range []string{"addPermission_arms_under_lock", "addPermission_callback_after_unlock"} {
+	for _, k := range []string{"addPermission_arms_under_lock", "addPermission_callback_after_unlock", "bindTimer_decides_under_lock"} {
 		fmt.Fprintf(&w, "def %s : Bool := %v\n", k, found[k])
 	}
 	fmt.Fprintf(&w, "end Gen.Facts\n")
